@@ -371,19 +371,30 @@ class _SbmlCase(object):
             ybar = self._solve_each(self.true, o)
             self.obs.append(ybar * np.exp(0.2 * rng.normal(size=len(ybar))))
         self.n_full = self.n_mech + sum(len(p) for p in self.em_true)
+        # the likelihood may be asked for the model's current outputs in
+        # ANOTHER order (outputs=...): data, error models and parameters
+        # follow the requested order, the user's model keeps its own
+        self.outputs_arg = ['none', 'same', 'permuted'][int(rng.integers(3))]
+        if self.outputs_arg == 'permuted' and self.n_out == 2:
+            for attr in ('outs', 'times', 'em_names', 'em_true', 'obs'):
+                setattr(self, attr, getattr(self, attr)[::-1])
 
     def _solve_each(self, p, o):
+        # reference: a model that returns only this output, by name
         m = self.model.copy()
+        m.set_outputs([self.outs[o]])
         out = []
         for t in self.times[o]:
-            out.append(m.simulate(p, [t])[o, 0])
+            out.append(m.simulate(p, [t])[0, 0])
         return np.array(out)
 
     def build(self):
         ems = [getattr(chi, nm)() for nm in self.em_names]
+        kw = {} if self.outputs_arg == 'none' else {
+            'outputs': list(self.outs)}
         return chi.LogLikelihood(
             self.model, ems, [y.copy() for y in self.obs],
-            [t.copy() for t in self.times])
+            [t.copy() for t in self.times], **kw)
 
     def ref_pointwise(self, x):
         out, s = [], self.n_mech
@@ -402,6 +413,7 @@ class _SbmlCase(object):
     def describe(self):
         return {'model': 'one_compartment_pk_model', 'outputs': self.outs,
                 'administration': self.model.administration(),
+                'outputs_argument': self.outputs_arg,
                 'error_models': self.em_names, 'arrangement': self.arrangement,
                 'times': [t.tolist() for t in self.times]}
 
